@@ -178,6 +178,12 @@ def integrate(cls, m, disc, f, cfl, nit, dtlocal=False):
     solver = getattr(fd.tnum, cls)(m, disc)
     kw = {"directives": {"dtlocal": True}} if dtlocal else {}
     with np.errstate(all="ignore"):
+        # history of the integrator object: it has already served one short solve with the OTHER directive and another CFL number
+        # (a solve depends on its arguments, not on what the object did before -- C08; every solve-level clause is judged that way)
+        try:
+            solver.solve(f.copy(), cfl * 0.5, stop={"maxit": 1}, **({} if dtlocal else {"directives": {"dtlocal": True}}))
+        except Exception:
+            pass
         res = solver.solve(f, cfl, stop={"maxit": nit}, **kw)
     return res[-1]
 
@@ -921,6 +927,15 @@ def matching_bcs(kind, gam, W, rnd):
     return out
 
 
+_BCPOOL = {}
+
+
+def pooled_bc(b):
+    d = _BCPOOL.setdefault(b["type"], {})
+    d.update(b)
+    return d
+
+
 def uniform_cases(rnd, tier):
     recs = []
     ncase = 150 if tier == "quick" else 2500
@@ -954,6 +969,10 @@ def uniform_cases(rnd, tier):
         cls = rnd.choice(EXPLICIT + IMPLICIT)
         implicit = cls in IMPLICIT
         dtlocal = rnd.random() < 0.4
+        # the user's boundary dictionaries live on: one dictionary object per condition type serves case after case, its values
+        # rewritten in place (a parameter sweep); a condition answers for the values it is given now
+        if bcl["type"] != bcr["type"]:
+            bcl, bcr = pooled_bc(bcl), pooled_bc(bcr)
         try:
             disc = fd.modeldisc.fvm(model, m, fd.recon(recon), numflux=flux, bcL=bcl, bcR=bcr)
             f0 = field_from_prim(model, m, [np.full(n, w) for w in W])
